@@ -61,6 +61,53 @@ def edge_level_scenario(rng):
             "start": "fresh", "trig": [t], "steps": steps, "data": [xs], "oneblock": False}
 
 
+def relen_scenario(rng):
+    """ConfigurePulseLengths with a LARGE change between two blocks (records 3-6 times shorter, or longer), with steep
+    pulses everywhere and in particular in the last record length of the block in front of the request: that tail has not
+    been searched yet when the request arrives (its records need samples of the next block)."""
+    npre = rng.randint(8, 20)
+    nsamp = npre + rng.choice([30, 45, 60])
+    if rng.random() < 0.7:
+        nsamp2 = rng.choice([6, 8, 10, 12])
+        npre2 = rng.randint(2, nsamp2 // 2)
+    else:
+        npre2 = npre + rng.choice([0, 5, nsamp // 2])
+        nsamp2 = max(nsamp + rng.choice([10, nsamp]), npre2 + 4)
+    small = min(nsamp, nsamp2)
+    nb1 = rng.randint(3, 5) * nsamp + rng.randint(0, nsamp)          # stream length in front of the request
+    total = nb1 + rng.randint(3, 6) * max(nsamp, nsamp2)
+    base = 1000
+    xs = [base] * total
+
+    def pulse(p):
+        w = max(2, small // 3)
+        for i in range(p, min(total, p + w)):
+            xs[i] = max(xs[i], base + int(600 * (1 - (i - p) / w)))
+
+    p = rng.randint(npre + 1, nsamp)
+    while p < total - 2:
+        pulse(p)
+        p += rng.randint(small + 1, 2 * nsamp)
+    # one pulse in the unsearched tail of the block in front of the request, clear of any earlier record
+    tail = nb1 - rng.randint(1, nsamp - npre)
+    for i in range(max(0, tail - nsamp - 2), min(total, tail + small)):
+        xs[i] = base
+    pulse(tail)
+    t = streamgen.trig_off()
+    t.update({"edge": True, "edgerising": True, "edgelevel": 150})
+    if rng.random() < 0.3:
+        t.update({"level": True, "levelrising": True, "levellevel": 1300})
+    steps = [{"k": "trig", "chans": [0], "t": t}]
+    first = rng.choice([[nb1], [nb1 // 2, nb1 - nb1 // 2], streamgen.block_sizes(rng, nb1, nsamp)])
+    for b in first:
+        steps.append({"k": "block", "n": b})
+    steps.append({"k": "len", "nsamp": nsamp2, "npre": npre2})
+    for b in (streamgen.block_sizes(rng, total - nb1, nsamp2) if rng.random() < 0.5 else [total - nb1]):
+        steps.append({"k": "block", "n": b})
+    return {"origin": "record-length-change", "nchan": 1, "npre": npre, "nsamp": nsamp, "signed": False, "period": 1000, "frame0": rng.choice([0, 1 << 33]),
+            "start": rng.choice(["fresh", "restored"]), "trig": [t], "steps": steps, "data": [xs], "oneblock": False}
+
+
 def long_auto_scenario(rng):
     """Auto trigger with a delay of many records at a sample rate whose period is not a whole number of nanoseconds
     (the sources round the period; the delay in samples is delay x rate, not delay / rounded period)."""
@@ -92,6 +139,9 @@ def run(ctx):
     ctx.notes["scenarios_edge_plus_level"] = ne
     na = 30 if q else 400
     scens += [long_auto_scenario(rng) for _ in range(na)]
+    nl = 60 if q else 1500
+    scens += [relen_scenario(rng) for _ in range(nl)]
+    ctx.notes["scenarios_record_length_change"] = nl
     ctx.notes["scenarios_long_auto_delay"] = na
     sc.validate(ctx, scens, PREFIXES)
     return vlib.finish(ctx, LEVEL, RULE,
